@@ -51,7 +51,7 @@ for name in list(rows):
 
 print("# Seeded changes: which check reports which change\n")
 print("Each directory `/verif/seeded/<ID>_m<k>/` holds a property-breaking change written by a sub-agent that saw only the property text and a scratch worktree of /repo: `patch.diff` (applies to /repo HEAD), the demonstration (`*.rs`, `run_demo.sh`), the agent's `README.md`, `confirm.log` (our own confirmation: demo passes without the change, fails with it, the whole existing suite passes with it) and `meta.json` (what it breaks, what it needs in order to manifest, what we ran). `_m1`/`_m2` are the first round, `_m3` the second, `_m4` the third, `_m5` the fourth and `_m6` the fifth (agents were told which mechanisms had been used already).\n")
-print("Matrix below: every change applied in a scratch worktree of /repo HEAD (`tools/scratch_check.sh`, driven by `tools/matrix.sh`), every check's quick tier run against it (VERIF_SEED=1). A cell lists the classification keys reported (`-` = the check stayed green, `?` = no run recorded). The target column is marked with `*`. KNOWN-FINDING keys are omitted.\n")
+print("Matrix below: every change applied in a scratch worktree of /repo HEAD (`tools/scratch_check.sh`, driven by `tools/matrix.sh`), every check's quick tier run against it (VERIF_SEED=1). The rows were produced over the last day of the work, each at the /repo HEAD of its time (e8f6822 ... ecbebbd: repository fixes kept arriving), with the simulator as it stood then; rows whose patch stopped applying after a fix were rebased and re-run, and every patch was checked to apply to the final HEAD. A cell lists the classification keys reported (`-` = the check stayed green, `?` = no run recorded). The target column is marked with `*`. KNOWN-FINDING keys are omitted.\n")
 print("| change | " + " | ".join(PROPS) + " |")
 print("|---|" + "---|" * len(PROPS))
 missed = []
